@@ -366,7 +366,12 @@ Varable failures: {var_failed}
                     )
 
         if props and dimensions:
-            out.updatetflag()
+            if variables:
+                # copying goes through createVariable, which lists every
+                # variable; prune the ones that do not belong in VAR-LIST
+                out.updatemeta()
+            else:
+                out.updatetflag()
 
         return out
 
